@@ -102,6 +102,7 @@ class Crate:
     def __init__(self, name, body, deps=None, native_deps=None, nightly_features=("pattern",)):
         self.name = name
         self._args = dict(body=body, deps=deps, native_deps=native_deps, nightly_features=nightly_features)
+        self._orig = getattr(self, "_orig", None) or (name, body)
         self.dir = os.path.join(SCRATCH, "verif-%s-%d" % (name, os.getpid()))
         self.deps = deps or {}
         self.native_deps = dict(self.deps, **(native_deps or {}))
@@ -154,14 +155,17 @@ class Crate:
     def variant(self, suffix, excluded):
         """Same crate with `const EXCL_<ROLE>: bool = false;` flipped to true for the given roles: used to
         discharge a lemma a second time with exactly a listed known finding's role assumed away."""
-        body = self._args["body"]
+        base_name, body = self._orig          # always derived from the original crate (all switches false)
         for r in excluded:
             old = "const EXCL_%s: bool = false;" % r
             if old not in body:
                 raise ValueError("crate %s has no exclusion switch %s" % (self.name, r))
             body = body.replace(old, "const EXCL_%s: bool = true;" % r)
         a = dict(self._args, body=body)
-        return Crate(self.name + suffix, **a)
+        c = Crate.__new__(Crate)
+        c._orig = self._orig
+        c.__init__(base_name + suffix, **a)
+        return c
 
     def cleanup(self):
         shutil.rmtree(self.dir, ignore_errors=True)
@@ -181,6 +185,12 @@ class Crate:
         p = subprocess.run(["bash", "-c", shell], cwd=self.dir, capture_output=True, text=True, env=ENV)
         wall = time.time() - t0
         out = p.stdout + "\n" + p.stderr
+        try:
+            os.makedirs(os.path.join(BUILD, "logs"), exist_ok=True)
+            with open(os.path.join(BUILD, "logs", "%s-%s.log" % (self.name, harness)), "w") as lf:
+                lf.write(out)
+        except OSError:
+            pass
         res = parse_kani_output(out)
         res.update(harness=harness, crate=self.name, wall_s=round(wall, 2), exit=p.returncode)
         if p.returncode in (124, 137):
